@@ -471,6 +471,7 @@ static const char* _jbl_parse_value(
           return 0;
         }
         char *pe;
+        errno = 0; // the checks below must see only what the conversions set
         node->vi64 = strtoll(p, &pe, 0);
         bool big = (pe != p) && (errno == ERANGE); // digits beyond int64: the number is read as a double
         if (pe == p) {
